@@ -506,6 +506,10 @@ func runC20(in sx.SX) (sx.SX, string) {
 	// that may share its list is written in place the value oracle no longer applies, the heap machine still does
 	linked := make([]bool, 4)
 	disciplined := true
+	// handles that may share one list: Assign puts the target into the source's group, every other way of giving a handle
+	// a value (constructors, setters, Clone, copies) starts a group of its own; a write through one handle (SetByIndex,
+	// SetLength) can show only through handles of its group
+	grp, nextGrp := []int{0, 1, 2, 3}, 4
 	for step, o := range sx.AsList(in) {
 		oo := sx.AsList(o)
 		if sx.AsInt(oo[0]) == 9 {
@@ -515,19 +519,26 @@ func runC20(in sx.SX) (sx.SX, string) {
 		switch sx.AsInt(oo[0]) {
 		case 0, 1:
 			linked[a] = false
+			grp[a], nextGrp = nextGrp, nextGrp+1
 		case 2:
 			j := int(sx.AsInt(oo[2]))
 			if fl == 3 {
 				if a != j {
 					linked[a], linked[j] = true, true
+					grp[a] = grp[j]
 				}
 			} else {
 				linked[a] = false
+				grp[a], nextGrp = nextGrp, nextGrp+1
 			}
 		case 3, 4, 8:
 			if linked[a] {
 				disciplined = false
 			}
+		}
+		beforeOp := make([]string, len(v))
+		for i := range v {
+			beforeOp[i] = sx.Text(valSX(v[i]))
 		}
 		switch sx.AsInt(oo[0]) {
 		case 0:
@@ -589,6 +600,13 @@ func runC20(in sx.SX) (sx.SX, string) {
 		default:
 			lists[a] = lists[a][:0]
 			sl[a] = nil
+		}
+		if k := sx.AsInt(oo[0]); (k == 3 || k == 4) && fail == "" {
+			for i := range v {
+				if grp[i] != grp[a] && sx.Text(valSX(v[i])) != beforeOp[i] {
+					fail = fmt.Sprintf("step %d: a write through v%d changed v%d from %s to %s although v%d holds a copy of its own (it was never assigned from or to v%d's list)", step, a, i, beforeOp[i], sx.Text(valSX(v[i])), i, a)
+				}
+			}
 		}
 		if !disciplined { // the value oracle is out: it follows what the handles hold (the Equals checks below still apply)
 			for i := range v {
